@@ -20,7 +20,66 @@ func c15Src(e *ext, n ast.Node) string {
 	return strings.Join(strings.Fields(b.String()), " ")
 }
 
+// c15Norm prints a node with the function's own identifiers abstracted, so that renaming a receiver, a
+// parameter or a local variable does not change the fact: receiver -> $r, i-th parameter -> $p<i>, local -> $v.
+func c15Norm(e *ext, fd *ast.FuncDecl, n ast.Node) string {
+	if n == nil {
+		return ""
+	}
+	role := map[*ast.Object]string{}
+	if fd.Recv != nil {
+		for _, f := range fd.Recv.List {
+			for _, id := range f.Names {
+				if id.Obj != nil {
+					role[id.Obj] = "$r"
+				}
+			}
+		}
+	}
+	i := 0
+	for _, f := range fd.Type.Params.List {
+		for _, id := range f.Names {
+			if id.Obj != nil {
+				role[id.Obj] = fmt.Sprintf("$p%d", i)
+			}
+			i++
+		}
+	}
+	type saved struct {
+		id   *ast.Ident
+		name string
+	}
+	var undo []saved
+	ast.Inspect(n, func(x ast.Node) bool {
+		if id, ok := x.(*ast.Ident); ok && id.Obj != nil && id.Obj.Kind == ast.Var {
+			undo = append(undo, saved{id, id.Name})
+			if r, ok := role[id.Obj]; ok {
+				id.Name = r
+			} else if _, isField := id.Obj.Decl.(*ast.Field); isField {
+				id.Name = "$v" // parameter of a nested literal / named result
+			} else {
+				id.Name = "$v"
+			}
+		}
+		return true
+	})
+	out := c15Src(e, n)
+	for _, u := range undo {
+		u.id.Name = u.name
+	}
+	return out
+}
+
+func c15RecvName(fd *ast.FuncDecl) string {
+	if fd.Recv != nil && len(fd.Recv.List) > 0 && len(fd.Recv.List[0].Names) > 0 {
+		return fd.Recv.List[0].Names[0].Name
+	}
+	return "qt"
+}
+
 // c15QtField returns the quotaTopology field an expression indexes into (qt.f[..], qt.f[..][..]), or "".
+var c15Recv = "qt" // receiver name of the function being inspected
+
 func c15QtField(x ast.Expr) string {
 	for {
 		switch v := x.(type) {
@@ -28,7 +87,7 @@ func c15QtField(x ast.Expr) string {
 			x = v.X
 			continue
 		case *ast.SelectorExpr:
-			if id, ok := v.X.(*ast.Ident); ok && id.Name == "qt" {
+			if id, ok := v.X.(*ast.Ident); ok && id.Name == c15Recv {
 				return v.Sel.Name
 			}
 			return ""
@@ -49,7 +108,7 @@ func c15Events(body *ast.BlockStmt, helpers map[string]bool) []string {
 		case *ast.CallExpr:
 			switch f := v.Fun.(type) {
 			case *ast.SelectorExpr:
-				if id, ok := f.X.(*ast.Ident); ok && id.Name == "qt" {
+				if id, ok := f.X.(*ast.Ident); ok && id.Name == c15Recv {
 					ev = append(ev, "call:"+f.Sel.Name)
 				} else if helpers[f.Sel.Name] {
 					ev = append(ev, "call:"+f.Sel.Name)
@@ -130,7 +189,7 @@ func c15LockFirst(body *ast.BlockStmt) bool {
 		touches := false
 		ast.Inspect(st, func(n ast.Node) bool {
 			if s, ok := n.(*ast.SelectorExpr); ok {
-				if id, ok := s.X.(*ast.Ident); ok && id.Name == "qt" &&
+				if id, ok := s.X.(*ast.Ident); ok && id.Name == c15Recv &&
 					(s.Sel.Name == "quotaInfoMap" || s.Sel.Name == "quotaHierarchyInfo" || s.Sel.Name == "namespaceToQuotaMap") {
 					touches = true
 				}
@@ -176,13 +235,21 @@ func init() {
 	extractors["C15"] = func(e *ext) {
 		d := "pkg/webhook/elasticquota"
 		helpers := map[string]bool{"NewQuotaInfoFromQuota": true, "IsForbiddenModify": true, "hasQuotaBoundedPods": true, "DeepEqual": true}
+		get := func(fn string) *ast.FuncDecl {
+			fd := e.funcDecl(d, "quotaTopology", fn)
+			if fd == nil || fd.Body == nil {
+				e.fail("%s not found", fn)
+				return nil
+			}
+			c15Recv = c15RecvName(fd)
+			return fd
+		}
 		for _, f := range []struct{ fn, lean string }{
 			{"ValidAddQuota", "addEvents"}, {"ValidUpdateQuota", "updEvents"}, {"ValidDeleteQuota", "delEvents"},
 			{"validateQuotaTopology", "topoEvents"}, {"checkMinQuotaValidate", "minEvents"}, {"checkParentQuotaInfo", "parentEvents"},
 		} {
-			fd := e.funcDecl(d, "quotaTopology", f.fn)
-			if fd == nil || fd.Body == nil {
-				e.fail("%s not found", f.fn)
+			fd := get(f.fn)
+			if fd == nil {
 				fmt.Fprintf(&e.out, "def %s : List (String × String) := []\n", f.lean)
 				continue
 			}
@@ -190,68 +257,69 @@ func init() {
 		}
 		// lock taken (and its release deferred) before the recorded state is touched
 		for _, f := range []struct{ fn, lean string }{{"ValidAddQuota", "addLockFirst"}, {"ValidUpdateQuota", "updLockFirst"}, {"ValidDeleteQuota", "delLockFirst"}} {
-			fd := e.funcDecl(d, "quotaTopology", f.fn)
-			ok := fd != nil && fd.Body != nil && c15LockFirst(fd.Body)
-			fmt.Fprintf(&e.out, "def %s : Bool := %v\n", f.lean, ok)
+			fd := get(f.fn)
+			fmt.Fprintf(&e.out, "def %s : Bool := %v\n", f.lean, fd != nil && c15LockFirst(fd.Body))
 		}
-		// ValidAddQuota creates the child set of the new name only when it is absent (repair f812ecb)
-		guarded, unguarded := false, false
-		if fd := e.funcDecl(d, "quotaTopology", "ValidAddQuota"); fd != nil && fd.Body != nil {
+		// ValidAddQuota creates the child set of the new name only when it is absent (repair f812ecb):
+		// every assignment `$r.quotaHierarchyInfo[$v.Name] = ...` sits inside `if $r.quotaHierarchyInfo[$v.Name] == nil`
+		guarded, unguarded := 0, 0
+		if fd := get("ValidAddQuota"); fd != nil {
 			isNameSet := func(st ast.Stmt) bool {
 				as, ok := st.(*ast.AssignStmt)
 				if !ok || len(as.Lhs) != 1 {
 					return false
 				}
 				ix, ok := as.Lhs[0].(*ast.IndexExpr)
-				return ok && c15Src(e, ix) == "qt.quotaHierarchyInfo[quotaInfo.Name]"
+				return ok && c15Norm(e, fd, ix) == "$r.quotaHierarchyInfo[$v.Name]"
 			}
 			for _, st := range fd.Body.List {
 				if isNameSet(st) {
-					unguarded = true
+					unguarded++
 				}
-				if is, ok := st.(*ast.IfStmt); ok && c15Src(e, is.Cond) == "qt.quotaHierarchyInfo[quotaInfo.Name] == nil" {
+				if is, ok := st.(*ast.IfStmt); ok && c15Norm(e, fd, is.Cond) == "$r.quotaHierarchyInfo[$v.Name] == nil" {
 					for _, in := range is.Body.List {
 						if isNameSet(in) {
-							guarded = true
+							guarded++
 						}
 					}
 				}
 			}
 		}
-		fmt.Fprintf(&e.out, "def addChildSetOnlyWhenAbsent : Bool := %v\n", guarded && !unguarded)
-		// early `return nil` conditions of checkMinQuotaValidate (the bypasses) and validateQuotaTopology (the shortcuts)
+		fmt.Fprintf(&e.out, "def addChildSetOnlyWhenAbsent : Bool := %v\n", guarded == 1 && unguarded == 0)
+		// early `return nil` on a condition over the parameters only: the bypasses of checkMinQuotaValidate and the
+		// shortcuts of validateQuotaTopology (conditions mentioning local variables are not listed)
 		for _, f := range []struct{ fn, lean string }{{"checkMinQuotaValidate", "minEarlyNil"}, {"validateQuotaTopology", "topoEarlyNil"}} {
-			var conds []string
-			if fd := e.funcDecl(d, "quotaTopology", f.fn); fd != nil && fd.Body != nil {
+			conds := []string{}
+			if fd := get(f.fn); fd != nil {
 				for _, st := range fd.Body.List {
 					is, ok := st.(*ast.IfStmt)
 					if !ok || is.Init != nil || len(is.Body.List) != 1 {
 						continue
 					}
 					if rs, ok := is.Body.List[0].(*ast.ReturnStmt); ok && len(rs.Results) == 1 && c15Src(e, rs.Results[0]) == "nil" {
-						conds = append(conds, c15Src(e, is.Cond))
+						if c := c15Norm(e, fd, is.Cond); !strings.Contains(c, "$v") {
+							conds = append(conds, c)
+						}
 					}
 				}
-			} else {
-				e.fail("%s not found", f.fn)
 			}
 			fmt.Fprintf(&e.out, "def %s : List String := %s\n", f.lean, c15List(conds))
 		}
 		// the upward walk of checkParentQuotaInfo
 		walk, walkRet, walkStep := "", false, false
-		if fd := e.funcDecl(d, "quotaTopology", "checkParentQuotaInfo"); fd != nil && fd.Body != nil {
+		if fd := get("checkParentQuotaInfo"); fd != nil {
 			ast.Inspect(fd.Body, func(n ast.Node) bool {
 				if fs, ok := n.(*ast.ForStmt); ok && fs.Cond != nil {
-					walk = c15Src(e, fs.Init) + " ; " + c15Src(e, fs.Cond) + " ; " + c15Src(e, fs.Post)
+					walk = c15Norm(e, fd, fs.Init) + " ; " + c15Norm(e, fd, fs.Cond) + " ; " + c15Norm(e, fd, fs.Post)
 					for _, st := range fs.Body.List {
-						if is, ok := st.(*ast.IfStmt); ok && c15Src(e, is.Cond) == "ancestor == quotaName" {
+						if is, ok := st.(*ast.IfStmt); ok && c15Norm(e, fd, is.Cond) == "$v == $p0" {
 							for _, in := range is.Body.List {
 								if rs, ok := in.(*ast.ReturnStmt); ok && len(rs.Results) == 1 && c15Src(e, rs.Results[0]) != "nil" {
 									walkRet = true
 								}
 							}
 						}
-						if c15Src(e, st) == "ancestor = ancestorInfo.ParentName" {
+						if c15Norm(e, fd, st) == "$v = $v.ParentName" {
 							walkStep = true
 						}
 					}
@@ -279,17 +347,17 @@ func init() {
 			e.fail("IsForbiddenModify not found")
 			fmt.Fprintf(&e.out, "def forbiddenModifyNames : List String := []\n")
 		}
-		if fd := e.funcDecl(d, "quotaTopology", "ValidDeleteQuota"); fd != nil && fd.Body != nil {
+		if fd := get("ValidDeleteQuota"); fd != nil {
 			fmt.Fprintf(&e.out, "def forbiddenDeleteNames : List String := %s\n", c15List(c15CmpNames(fd.Body)))
 		} else {
 			fmt.Fprintf(&e.out, "def forbiddenDeleteNames : List String := []\n")
 		}
 		// GetParentQuotaName: the empty label means root, except for the root-named object
 		if fd := e.funcDecl("apis/extension", "", "GetParentQuotaName"); fd != nil && fd.Body != nil {
-			var conds []string
+			conds := []string{}
 			for _, st := range fd.Body.List {
-				if is, ok := st.(*ast.IfStmt); ok {
-					conds = append(conds, c15Src(e, is.Cond)+" => "+c15Src(e, is.Body.List[0]))
+				if is, ok := st.(*ast.IfStmt); ok && len(is.Body.List) > 0 {
+					conds = append(conds, c15Norm(e, fd, is.Cond)+" => "+c15Norm(e, fd, is.Body.List[0]))
 				}
 			}
 			fmt.Fprintf(&e.out, "def parentDefaulting : List String := %s\n", c15List(conds))
